@@ -135,18 +135,21 @@ def ev(e, env):
             return -v
         raise Unknown(key)
     if isinstance(e, ast.BoolOp):
-        if isinstance(e.op, ast.And):
-            r = True
-            for v in e.values:
-                r = ev(v, env)
-                if not r:
-                    return r
-            return r
-        r = False
+        # three-valued: the operands are side-effect free, so one decided falsy (truthy) operand
+        # decides a conjunction (disjunction) whatever the undecided ones are
+        is_and = isinstance(e.op, ast.And)
+        unknown = None
+        r = is_and
         for v in e.values:
-            r = ev(v, env)
-            if r:
+            try:
+                r = ev(v, env)
+            except Unknown as u:
+                unknown = unknown or u
+                continue
+            if bool(r) != is_and:
                 return r
+        if unknown is not None:
+            raise unknown
         return r
     if isinstance(e, ast.BinOp):
         l, r = ev(e.left, env), ev(e.right, env)
@@ -357,7 +360,7 @@ def check_cond(ctx, rule, fi, node_ast, expr, domain, spec, what, meaning, close
     return True
 
 
-def outcomes(g, fn_node, env, abort_only, memo=None, watch=None, reached=None):
+def outcomes(g, fn_node, env, abort_only, memo=None, watch=None, reached=None, start=None):
     """Which ways can one function end for one assignment of its inputs?  Walks the CFG from the entry,
     deciding every test whose operands the assignment binds (through `ev`, locals resolved to their
     reaching straight-line definition; a local assigned an evaluable expression on the walked path is
@@ -390,7 +393,7 @@ def outcomes(g, fn_node, env, abort_only, memo=None, watch=None, reached=None):
             memo[rk] = relevant
     out, both = set(), []
     seen = set()
-    st = [(g.entry, (), False)]
+    st = [(x, (), False) for x in (start or [g.entry])]
     while st:
         n, loc, taint = st.pop()
         key = (n.id, loc, taint)
